@@ -61,6 +61,41 @@ type c08Env struct {
 	hide     string                    // name of the marker object (cluster mode), never shown
 	loadErr  bool                      // createSharedInformer failed (the filter fails on a listed object)
 	cancel   context.CancelFunc
+	k        int       // index of this binding in the hook
+	peers    []*c08Env // every binding of the hook (this one included), in the order of the configuration
+	store    *c08Store // the objects of the shared informer all bindings of the hook are fed from
+}
+
+// c08Store plays the store of the client-go shared informer the bindings of one hook share (same
+// kind, namespace and selectors = one FactoryIndex): it holds ONE *unstructured.Unstructured per live
+// object. A new state is a new pointer; a re-delivery of an unchanged state (informer start after the
+// first delivery, resync, relist) hands out the very pointer that is stored, and every handler gets
+// this same pointer — what client-go does.
+type c08Store struct {
+	objs map[string]*unstructured.Unstructured
+	text map[string]string
+}
+
+func (s *c08Store) ptr(name string, obj map[string]any) (*unstructured.Unstructured, bool) {
+	canon := g4CanonJSON(obj)
+	if p, ok := s.objs[name]; ok && s.text[name] == canon {
+		return p, true
+	}
+	p := &unstructured.Unstructured{Object: g4DeepCopyJSON(obj)}
+	s.objs[name], s.text[name] = p, canon
+	return p, false
+}
+
+func (s *c08Store) drop(name string) {
+	delete(s.objs, name)
+	delete(s.text, name)
+}
+
+// bind makes this binding the current one on both sides of the protocol (hooks with several bindings).
+func (e *c08Env) bind() {
+	if len(e.peers) > 1 {
+		e.c.Op(fmt.Sprintf("bind %d", e.k), "ok")
+	}
 }
 
 func (e *c08Env) takeEvents() []kemtypes.KubeEvent {
@@ -152,8 +187,9 @@ func g4TypesArg(ts []kemtypes.WatchEventType) string {
 // (nil = key absent, empty = `[]`).
 type c08Binding struct {
 	exec, watch *[]kemtypes.WatchEventType
-	asYAML      bool // render the hook configuration as block YAML instead of JSON
-	keepKey     bool // keep=true: write `keepFullObjectsInMemory: true` instead of leaving the default
+	v0          *[]string // legacy hook (no configVersion): the `event` list as written (add, update, delete)
+	asYAML      bool      // render the hook configuration as block YAML instead of JSON
+	keepKey     bool      // keep=true: write `keepFullObjectsInMemory: true` instead of leaving the default
 }
 
 func c08Exec(ts []kemtypes.WatchEventType) c08Binding { return c08Binding{exec: &ts} }
@@ -181,6 +217,24 @@ func c08GenKey(rng *Rng, absentPct int) *[]kemtypes.WatchEventType {
 	return &ts
 }
 
+// c08GenV0Events: the `event` key of a legacy binding: [] or a subset of add/update/delete in any
+// order, now and then with a repeated item. (The key is always written: see notes/C08.md, fourth wave,
+// about a legacy binding without it.)
+func c08GenV0Events(rng *Rng) *[]string {
+	l := []string{}
+	mask := rng.Intn(8)
+	for i, n := range []string{"add", "update", "delete"} {
+		if mask&(1<<i) != 0 {
+			l = append(l, n)
+		}
+	}
+	rng.Shuffle(len(l), func(i, j int) { l[i], l[j] = l[j], l[i] })
+	if len(l) > 0 && rng.Chance(10) {
+		l = append(l, l[rng.Intn(len(l))])
+	}
+	return &l
+}
+
 // c08GenBinding: executeHookOnEvent absent/[]/subset x watchEvent absent/[]/subset.
 func c08GenBinding(rng *Rng) c08Binding {
 	b := c08Binding{asYAML: rng.Bool(), keepKey: rng.Bool()}
@@ -197,12 +251,19 @@ func c08GenBinding(rng *Rng) c08Binding {
 	return b
 }
 
-// c08LoadMonitorConfig writes the hook configuration (one kubernetes binding on ConfigMaps of the
-// case's namespace) and loads it with the real HookConfig.LoadAndValidate; the MonitorConfig the
-// loader built is what the informer gets.
-func c08LoadMonitorConfig(b c08Binding, jqText string, keep bool, ns string) (*kem.MonitorConfig, string) {
-	bind := map[string]any{"name": "b", "apiVersion": "v1", "kind": "ConfigMap",
-		"namespace": map[string]any{"nameSelector": map[string]any{"matchNames": []any{ns}}}}
+// c08Spec: one kubernetes binding of the hook of a case.
+type c08Spec struct {
+	b    c08Binding
+	f    *jqF
+	keep bool
+}
+
+// c08LoadHook writes ONE hook configuration with all the bindings of the case (each on ConfigMaps of
+// the case's namespace: the bindings share one informer factory index) — configVersion v1
+// (`kubernetes:`) or the legacy format without configVersion (`onKubernetesEvent:`, `event: [add,
+// update, delete]`) — and loads it with the real HookConfig.LoadAndValidate; the MonitorConfigs the
+// loader built, as they are AFTER the whole configuration was converted, are what the informers get.
+func c08LoadHook(v0 bool, specs []c08Spec, asYAML bool, ns string) ([]*kem.MonitorConfig, string) {
 	lst := func(l []kemtypes.WatchEventType) []any {
 		out := []any{}
 		for _, t := range l {
@@ -210,25 +271,56 @@ func c08LoadMonitorConfig(b c08Binding, jqText string, keep bool, ns string) (*k
 		}
 		return out
 	}
-	if b.exec != nil {
-		bind["executeHookOnEvent"] = lst(*b.exec)
+	var binds []any
+	for i, sp := range specs {
+		jqText := ""
+		if sp.f != nil {
+			jqText = sp.f.text()
+		}
+		name := "b"
+		if len(specs) > 1 {
+			name = fmt.Sprintf("b%d", i)
+		}
+		var bind map[string]any
+		if v0 {
+			bind = map[string]any{"name": name, "kind": "ConfigMap",
+				"namespaceSelector": map[string]any{"matchNames": []any{ns}}}
+			if sp.b.v0 != nil {
+				evs := []any{}
+				for _, n := range *sp.b.v0 {
+					evs = append(evs, n)
+				}
+				bind["event"] = evs
+			}
+		} else {
+			bind = map[string]any{"name": name, "apiVersion": "v1", "kind": "ConfigMap",
+				"namespace": map[string]any{"nameSelector": map[string]any{"matchNames": []any{ns}}}}
+			if sp.b.exec != nil {
+				bind["executeHookOnEvent"] = lst(*sp.b.exec)
+			}
+			if sp.b.watch != nil {
+				bind["watchEvent"] = lst(*sp.b.watch)
+			}
+			if !sp.keep {
+				bind["keepFullObjectsInMemory"] = false
+			} else if sp.b.keepKey {
+				bind["keepFullObjectsInMemory"] = true
+			}
+		}
+		if jqText != "" {
+			bind["jqFilter"] = jqText
+		}
+		binds = append(binds, bind)
 	}
-	if b.watch != nil {
-		bind["watchEvent"] = lst(*b.watch)
+	top := map[string]any{"configVersion": "v1", "kubernetes": binds}
+	if v0 {
+		top = map[string]any{"onKubernetesEvent": binds}
 	}
-	if jqText != "" {
-		bind["jqFilter"] = jqText
-	}
-	if !keep {
-		bind["keepFullObjectsInMemory"] = false
-	} else if b.keepKey {
-		bind["keepFullObjectsInMemory"] = true
-	}
-	doc, err := json.Marshal(map[string]any{"configVersion": "v1", "kubernetes": []any{bind}})
+	doc, err := json.Marshal(top)
 	if err != nil {
 		return nil, "marshal: " + err.Error()
 	}
-	if b.asYAML {
+	if asYAML {
 		if doc, err = sigsyaml.JSONToYAML(doc); err != nil {
 			return nil, "yaml: " + err.Error()
 		}
@@ -237,83 +329,147 @@ func c08LoadMonitorConfig(b c08Binding, jqText string, keep bool, ns string) (*k
 	if err := hc.LoadAndValidate(doc); err != nil {
 		return nil, "load: " + firstLine(err.Error())
 	}
-	if len(hc.OnKubernetesEvents) != 1 || hc.OnKubernetesEvents[0].Monitor == nil {
+	if len(hc.OnKubernetesEvents) != len(specs) {
 		return nil, fmt.Sprintf("load: %d kubernetes bindings", len(hc.OnKubernetesEvents))
 	}
-	return hc.OnKubernetesEvents[0].Monitor, ""
+	var out []*kem.MonitorConfig
+	for i := range hc.OnKubernetesEvents {
+		if hc.OnKubernetesEvents[i].Monitor == nil {
+			return nil, fmt.Sprintf("load: binding %d has no monitor", i)
+		}
+		out = append(out, hc.OnKubernetesEvents[i].Monitor)
+	}
+	return out, ""
 }
 
-// c08Setup writes the cfg line, loads the binding through the real hook-config loader, creates the
-// initial objects in the fake cluster and lets the real informer load them.
+// c08Setup: a hook with one v1 binding.
 func c08Setup(c *Case, b c08Binding, f *jqF, keep bool, initial []map[string]any) *c08Env {
-	e := &c08Env{c: c, ns: fmt.Sprintf("c08-%d", c.Idx), ids: NewInterner(), states: map[string]map[string]any{}}
-	e.fc = fake.NewFakeCluster(fake.ClusterVersionV121)
-	jqText, ast := "-", "-"
-	if f != nil {
-		jqText, ast = f.text(), g4CanonJSON(f.ast())
-		e.jq = jqText
+	return c08SetupHook(c, false, []c08Spec{{b, f, keep}}, b.asYAML, initial)
+}
+
+// c08SetupHook writes the cfg line of every binding, loads the hook through the real hook-config
+// loader, creates the initial objects in the fake cluster and lets the real informer of every binding
+// load them. The result is the first binding's environment; deliver/jqProbe on it address all of them.
+func c08SetupHook(c *Case, v0 bool, specs []c08Spec, asYAML bool, initial []map[string]any) *c08Env {
+	ns := fmt.Sprintf("c08-%d", c.Idx)
+	fc := fake.NewFakeCluster(fake.ClusterVersionV121)
+	ids := NewInterner()
+	states := map[string]map[string]any{}
+	store := &c08Store{objs: map[string]*unstructured.Unstructured{}, text: map[string]string{}}
+	cfgs, lerr := c08LoadHook(v0, specs, asYAML, ns)
+	var envs []*c08Env
+	for k := range specs {
+		envs = append(envs, &c08Env{c: c, ns: ns, fc: fc, ids: ids, states: states, store: store, k: k})
 	}
-	k := 0
-	if keep {
-		k = 1
+	for k, sp := range specs {
+		e := envs[k]
+		e.peers = envs
+		e.bind()
+		jqText, ast := "-", "-"
+		if sp.f != nil {
+			jqText, ast = sp.f.text(), g4CanonJSON(sp.f.ast())
+			e.jq = jqText
+		}
+		keep := sp.keep || v0 // version 0 has no keepFullObjectsInMemory option
+		kp := 0
+		if keep {
+			kp = 1
+		}
+		ans := "ok"
+		var cfg *kem.MonitorConfig
+		if cfgs == nil {
+			ans = lerr
+			cfg = &kem.MonitorConfig{ApiVersion: "v1", Kind: "ConfigMap"}
+		} else {
+			cfg = cfgs[k]
+		}
+		e.inf = kem.VerifNewInformerC08(fc.Client, c08Metrics(), cfg, ns, "", func(ev kemtypes.KubeEvent) {
+			e.mu.Lock()
+			e.events = append(e.events, ev)
+			e.mu.Unlock()
+		})
+		if v0 {
+			c.Op(fmt.Sprintf("cfg v0 event=%s jq=%s ast=%s", c08NamesArg(sp.b.v0), jqText, ast), ans)
+		} else {
+			c.Op(fmt.Sprintf("cfg exec=%s watch=%s keep=%d jq=%s ast=%s", c08KeyArg(sp.b.exec), c08KeyArg(sp.b.watch), kp, jqText, ast), ans)
+		}
+		got := g4TypesArg(cfg.EventTypes)
+		c.Op("types", got)
+		c.Oracle("types " + got)
+		if cfg.JqFilter != e.jq || cfg.KeepFullObjectsInMemory != keep {
+			c.Op("loader-kept-filter-and-keep", fmt.Sprintf("jq=%q keep=%v", cfg.JqFilter, cfg.KeepFullObjectsInMemory))
+		}
+		if !v0 && sp.b.exec == nil && sp.b.watch == nil {
+			c.Op("defaults", got)
+			c.Oracle("defaults " + got)
+			c.Note("types:default")
+		}
+		if v0 {
+			c.Note("v0-event:" + c08NamesClass(sp.b.v0))
+		} else {
+			c.Note("exec:" + c08KeyClass(sp.b.exec) + "/watch:" + c08KeyClass(sp.b.watch))
+		}
 	}
-	cfg, lerr := c08LoadMonitorConfig(b, e.jq, keep, e.ns)
-	ans := "ok"
-	if cfg == nil {
-		ans = lerr
-		cfg = &kem.MonitorConfig{ApiVersion: "v1", Kind: "ConfigMap"}
+	ver := "v1"
+	if v0 {
+		ver = "v0"
 	}
-	e.inf = kem.VerifNewInformerC08(e.fc.Client, c08Metrics(), cfg, e.ns, "", func(ev kemtypes.KubeEvent) {
-		e.mu.Lock()
-		e.events = append(e.events, ev)
-		e.mu.Unlock()
-	})
-	c.Op(fmt.Sprintf("cfg exec=%s watch=%s keep=%d jq=%s ast=%s", c08KeyArg(b.exec), c08KeyArg(b.watch), k, jqText, ast), ans)
-	got := g4TypesArg(cfg.EventTypes)
-	c.Op("types", got)
-	c.Oracle("types " + got)
-	if cfg.JqFilter != e.jq || cfg.KeepFullObjectsInMemory != keep {
-		c.Op("loader-kept-filter-and-keep", fmt.Sprintf("jq=%q keep=%v", cfg.JqFilter, cfg.KeepFullObjectsInMemory))
-	}
-	if b.exec == nil && b.watch == nil {
-		c.Op("defaults", got)
-		c.Oracle("defaults " + got)
-		c.Note("types:default")
-	}
-	c.Note("exec:" + c08KeyClass(b.exec) + "/watch:" + c08KeyClass(b.watch))
+	c.Note(fmt.Sprintf("hook:%s/bindings:%d", ver, len(specs)))
 	// initial objects: through the dynamic tracker, then read back (the state the informer lists)
 	var loadArgs []string
 	for _, o := range initial {
-		_, err := e.fc.Client.Dynamic().Resource(g4CmGVR).Namespace(e.ns).Create(context.TODO(), &unstructured.Unstructured{Object: g4DeepCopyJSON(o)}, metav1.CreateOptions{})
+		_, err := fc.Client.Dynamic().Resource(g4CmGVR).Namespace(ns).Create(context.TODO(), &unstructured.Unstructured{Object: g4DeepCopyJSON(o)}, metav1.CreateOptions{})
 		if err != nil {
 			c.Op("harness-create-failed", err.Error())
 		}
 	}
 	if len(initial) > 0 {
-		lst, err := e.fc.Client.Dynamic().Resource(g4CmGVR).Namespace(e.ns).List(context.TODO(), metav1.ListOptions{})
+		lst, err := fc.Client.Dynamic().Resource(g4CmGVR).Namespace(ns).List(context.TODO(), metav1.ListOptions{})
 		if err != nil {
 			c.Op("harness-list-failed", err.Error())
 		} else {
 			sort.Slice(lst.Items, func(i, j int) bool { return lst.Items[i].GetName() < lst.Items[j].GetName() })
 			for i := range lst.Items {
 				st := g4DeepCopyJSON(lst.Items[i].Object)
-				e.states[lst.Items[i].GetName()] = st
-				loadArgs = append(loadArgs, fmt.Sprintf("%d=%s", e.ids.Id(lst.Items[i].GetName()), g4CanonJSON(st)))
+				states[lst.Items[i].GetName()] = st
+				loadArgs = append(loadArgs, fmt.Sprintf("%d=%s", ids.Id(lst.Items[i].GetName()), g4CanonJSON(st)))
 			}
 		}
 	}
-	err := e.inf.CreateSharedInformer()
-	ans = "cache=" + e.cacheText()
-	if err != nil {
-		ans = "err"
-		e.loadErr = true
+	for _, e := range envs {
+		e.bind()
+		err := e.inf.CreateSharedInformer()
+		ans := "cache=" + e.cacheText()
+		if err != nil {
+			ans = "err"
+			e.loadErr = true
+		}
+		c.Op(strings.TrimSpace("load "+strings.Join(loadArgs, " ")), ans)
+		if err == nil {
+			c.Oracle(strings.TrimSpace("snap " + e.snapTokens()))
+		}
+		e.inf.EnableKubeEventCb()
 	}
-	c.Op(strings.TrimSpace("load "+strings.Join(loadArgs, " ")), ans)
-	if err == nil {
-		c.Oracle(strings.TrimSpace("snap " + e.snapTokens()))
+	return envs[0]
+}
+
+func c08NamesArg(l *[]string) string {
+	if l == nil {
+		return "~"
 	}
-	e.inf.EnableKubeEventCb()
-	return e
+	return joinStrs(*l)
+}
+
+func c08NamesClass(l *[]string) string {
+	switch {
+	case l == nil:
+		return "absent"
+	case len(*l) == 0:
+		return "empty"
+	case len(*l) >= 3:
+		return "all"
+	}
+	return "some"
 }
 
 func c08KeyClass(l *[]kemtypes.WatchEventType) string {
@@ -328,41 +484,61 @@ func c08KeyClass(l *[]kemtypes.WatchEventType) string {
 	return "some"
 }
 
-// jqProbe compares the model's evaluator with gojq through the real applyFilter.
-func (e *c08Env) jqProbe(obj map[string]any) string {
-	if e.jq == "" {
-		return ""
+// jqProbe compares the model's evaluator with gojq through the real applyFilter, for the filter of
+// every binding of the hook.
+func (e *c08Env) jqProbe(obj map[string]any) {
+	for _, pe := range e.peers {
+		if pe.jq == "" {
+			continue
+		}
+		pe.bind()
+		res, err := kem.VerifApplyFilterC08(pe.jq, &unstructured.Unstructured{Object: g4DeepCopyJSON(obj)})
+		ans := "err"
+		if err == nil {
+			ans = "fr=" + g4FrText(res)
+		}
+		e.c.Op("jq "+g4CanonJSON(obj), ans)
+		e.c.Note("jq-result:" + g4ResultClass(strings.TrimPrefix(ans, "fr=")))
 	}
-	res, err := kem.VerifApplyFilterC08(e.jq, &unstructured.Unstructured{Object: g4DeepCopyJSON(obj)})
-	ans := "err"
-	if err == nil {
-		ans = "fr=" + g4FrText(res)
-	}
-	e.c.Op("jq "+g4CanonJSON(obj), ans)
-	e.c.Note("jq-result:" + g4ResultClass(strings.TrimPrefix(ans, "fr=")))
-	return ans
 }
 
-// deliver hands one change to the real handleWatchEvent and records what the informer did.
+// deliver hands one change to the real handleWatchEvent of every binding of the hook, the way the
+// shared informer does: ONE object pointer per state, taken from the store (a re-delivery of an
+// unchanged state is the SAME pointer once more), handed to every handler in turn; after each handler
+// the binding's snapshot is read (record: getCachedObjects, what a hook run does), so reads of one
+// binding's snapshot lie between the deliveries to the others and before every re-delivery.
 func (e *c08Env) deliver(t kemtypes.WatchEventType, name string, obj map[string]any) {
-	u := &unstructured.Unstructured{Object: g4DeepCopyJSON(obj)}
-	e.takeEvents()
-	switch t {
-	case kemtypes.WatchEventAdded:
-		e.inf.OnAdd(u)
-	case kemtypes.WatchEventModified:
-		e.inf.OnUpdate(u)
-	case kemtypes.WatchEventDeleted:
+	u, same := e.store.ptr(name, obj)
+	if same {
+		e.c.Note("redeliver:same-pointer")
+	}
+	tomb := false
+	if t == kemtypes.WatchEventDeleted {
 		// every other delete arrives the way client-go reports a delete it learned about on a relist:
 		// the last known state inside a DeletedFinalStateUnknown value
 		e.nDeletes++
-		if e.nDeletes%2 == 0 {
-			e.inf.OnDeleteTombstone(u.GetNamespace()+"/"+u.GetName(), u)
-		} else {
-			e.inf.OnDelete(u)
-		}
+		tomb = e.nDeletes%2 == 0
 	}
-	e.record(t, name, obj, e.takeEvents())
+	for _, pe := range e.peers {
+		pe.bind()
+		pe.takeEvents()
+		switch t {
+		case kemtypes.WatchEventAdded:
+			pe.inf.OnAdd(u)
+		case kemtypes.WatchEventModified:
+			pe.inf.OnUpdate(u)
+		case kemtypes.WatchEventDeleted:
+			if tomb {
+				pe.inf.OnDeleteTombstone(u.GetNamespace()+"/"+u.GetName(), u)
+			} else {
+				pe.inf.OnDelete(u)
+			}
+		}
+		pe.record(t, name, obj, pe.takeEvents())
+	}
+	if t == kemtypes.WatchEventDeleted {
+		e.store.drop(name)
+	}
 }
 
 func (e *c08Env) record(t kemtypes.WatchEventType, name string, obj map[string]any, evs []kemtypes.KubeEvent) {
@@ -416,6 +592,63 @@ func g4SubsetTypes(mask int) []kemtypes.WatchEventType {
 	return ts
 }
 
+// ---- objects with the metadata a real cluster puts on them
+
+// the mutable leaves of C08's objects: those of g4ObjLeaves, an annotation and the managedFields list
+var c08ObjLeaves = append(append([][]string{}, g4ObjLeaves...),
+	[]string{"metadata", "annotations", "n"}, []string{"metadata", "managedFields"})
+
+// filter paths: those of g4FilterPaths and the metadata a hook may project (or that the operator
+// might be tempted to strip): the whole metadata, the managedFields list, the annotations
+var c08FilterPaths = append(append([][]string{}, g4FilterPaths...),
+	[]string{"metadata"}, []string{"metadata", "managedFields"}, []string{"metadata", "annotations"},
+	[]string{"metadata", "annotations", "n"}, []string{"metadata", "generation"})
+
+// c08GenManagedFields: what the api-server records for every field manager of an object.
+func c08GenManagedFields(rng *Rng) []any {
+	var out []any
+	for n := rng.Range(1, 2); n > 0; n-- {
+		out = append(out, map[string]any{
+			"manager":    PickOne(rng, []string{"kubectl", "helm", "shell-operator"}),
+			"operation":  PickOne(rng, []string{"Update", "Apply"}),
+			"apiVersion": "v1",
+			"time":       fmt.Sprintf("2024-01-0%dT00:00:0%dZ", rng.Range(1, 3), rng.Intn(3)),
+			"fieldsType": "FieldsV1",
+			"fieldsV1":   map[string]any{"f:data": map[string]any{PickOne(rng, []string{"f:k", "."}): map[string]any{}}},
+		})
+	}
+	return out
+}
+
+// c08GenObject: a ConfigMap-shaped object as g4GenObject builds it, plus — mostly — the metadata
+// every object of a real cluster carries: managedFields, annotations (kubectl's last-applied one),
+// generation, creationTimestamp, finalizers, ownerReferences.
+func c08GenObject(rng *Rng, ns, name string) map[string]any {
+	o := g4GenObject(rng, ns, name)
+	md := o["metadata"].(map[string]any)
+	if rng.Chance(60) {
+		md["managedFields"] = c08GenManagedFields(rng)
+	}
+	if rng.Chance(35) {
+		an := map[string]any{"kubectl.kubernetes.io/last-applied-configuration": "{\"kind\":\"ConfigMap\"}"}
+		if rng.Bool() {
+			an["n"] = PickOne(rng, []string{"u", "v", "w"})
+		}
+		md["annotations"] = an
+	}
+	if rng.Chance(30) {
+		md["generation"] = int64(rng.Range(1, 3))
+		md["creationTimestamp"] = "2024-01-01T00:00:00Z"
+	}
+	if rng.Chance(12) {
+		md["finalizers"] = []any{"verif/keep"}
+	}
+	if rng.Chance(12) {
+		md["ownerReferences"] = []any{map[string]any{"apiVersion": "v1", "kind": "ConfigMap", "name": "owner", "uid": "u-1"}}
+	}
+	return o
+}
+
 // mutate returns a changed copy of obj: inside the filter's paths, outside them, or anywhere.
 func c08Mutate(rng *Rng, obj map[string]any, f *jqF, where string) map[string]any {
 	o := g4DeepCopyJSON(obj)
@@ -436,17 +669,19 @@ func c08Mutate(rng *Rng, obj map[string]any, f *jqF, where string) map[string]an
 		return false
 	}
 	var cand [][]string
-	for _, l := range g4ObjLeaves {
+	for _, l := range c08ObjLeaves {
 		if where == "any" || (where == "inside") == touches(l) {
 			cand = append(cand, l)
 		}
 	}
 	if len(cand) == 0 {
-		cand = g4ObjLeaves
+		cand = c08ObjLeaves
 	}
 	l := PickOne(rng, cand)
 	if rng.Chance(15) {
 		g4DelPath(o, l)
+	} else if l[len(l)-1] == "managedFields" {
+		g4SetPath(o, l, c08GenManagedFields(rng)) // another manager / another time: a change of the object
 	} else if l[0] == "metadata" {
 		g4SetPath(o, l, PickOne(rng, []string{"u", "v", "w"}))
 	} else {
@@ -561,7 +796,7 @@ func c08History(e *c08Env, rng *Rng, f *jqF, names []string, steps int) (changes
 		name := PickOne(rng, names)
 		cur, live := e.states[name]
 		if !live {
-			o := g4GenObject(rng, e.ns, name)
+			o := c08GenObject(rng, e.ns, name)
 			probe(o)
 			t := kemtypes.WatchEventAdded
 			if rng.Chance(10) {
@@ -657,7 +892,7 @@ func c08Obj(ns, name string, replicas int64, a any, x int64) map[string]any {
 }
 
 func runC08(r *Run) {
-	r.Rule = "per case: one real resourceInformer on kube-client/fake with a jq program drawn from the fragment (paths incl. missing keys and paths through scalars, literals, object/array construction, `//`; results object/array/scalar/null/error; 12% with two or three expressions joined by `,` = several outputs, merged the legacy way) or no filter, the binding written as a hook configuration (configVersion v1, rendered as JSON or as block YAML) and loaded by the real HookConfig.LoadAndValidate — executeHookOnEvent absent / [] / any subset of {Added,Modified,Deleted} in any order, now and then with a repeated item, x the deprecated watchEvent absent / [] / any subset (45% executeHookOnEvent only, 10% neither key = the default, 15% watchEvent only, 30% both keys), jqFilter, keepFullObjectsInMemory false / true / left out — the MonitorConfig the loader built is what the informer gets; 0-3 objects loaded by the real loadExistedObjects, then a history of 3-14 changes over 1-3 objects handed to the real OnAdd/OnUpdate/OnDelete: informer-start replay of the listed objects, resync of the identical state, changes only outside the filter's paths, changes inside them, changes of the TYPE of a leaf inside them with the same JSON text (3 <-> '3', true <-> 'true', absent/null <-> 'null', an array or object <-> the string holding its text; 12% of the steps, half of them followed by the way back), A->B->A, deletes (also with a final state that differs from the cached one), re-adds, Modified and Deleted for objects the informer does not know. Every distinct object state is also run through the real applyFilter and compared with the model's jq evaluator. A case is non-trivial when it delivers >= 3 changes and contains at least one re-delivery or outside-only change; distinct = distinct op-line sequences. `cluster` cases start the informer on the fake client and change the objects in the cluster instead."
+	r.Rule = "per case: ONE HOOK CONFIGURATION with 1-3 kubernetes bindings on the same kind and namespace (55% one binding, 45% two or three = several handlers of one shared informer), 75% configVersion v1 (rendered as JSON or block YAML; per binding executeHookOnEvent absent / [] / any subset of {Added,Modified,Deleted} in any order, now and then with a repeated item, x the deprecated watchEvent absent / [] / any subset: 45% executeHookOnEvent only, 10% neither key = the default, 15% watchEvent only, 30% both keys; keepFullObjectsInMemory false / true / left out) and 25% the legacy format without configVersion (onKubernetesEvent, per binding `event:` [] or any subset of add/update/delete in any order, now and then with a repeated name); per binding a jq program drawn from the fragment (paths incl. missing keys, paths through scalars, .metadata, .metadata.managedFields, .metadata.annotations; literals, object/array construction, `//`; results object/array/scalar/null/error; 12% with two or three expressions joined by `,` = several outputs, merged the legacy way) or no filter (20%). The whole configuration is loaded by the real HookConfig.LoadAndValidate and the MonitorConfig the loader built FOR EACH BINDING, as it is after the whole hook was converted, goes into a real resourceInformer of its own on kube-client/fake. Objects are ConfigMap-shaped with a random subset of six leaves and, mostly, the metadata of a real cluster (60% metadata.managedFields with 1-2 managers, 35% annotations incl. kubectl's last-applied one, generation/creationTimestamp, finalizers, ownerReferences). 0-3 objects loaded by the real loadExistedObjects, then a history of 3-14 changes (3-9 for several bindings) over 1-3 objects handed to the real OnAdd/OnUpdate/OnDelete of EVERY binding in turn, the way a shared informer does it: the harness keeps ONE *unstructured.Unstructured per live object (the informer's store), a new state is a new pointer, a re-delivery of an unchanged state hands the SAME pointer to every handler once more; after every handler call that binding's snapshot is read through the real getCachedObjects (what a hook run does), so snapshot reads lie between the deliveries to the other bindings and before every re-delivery. Steps: informer-start replay of the listed objects, resync of the identical state (same pointer), changes only outside the first binding's filter paths, changes inside them (leaves, an annotation, the managedFields list), changes of the TYPE of a leaf inside them with the same JSON text (3 <-> '3', true <-> 'true', absent/null <-> 'null', an array or object <-> the string holding its text; 12% of the steps, half of them followed by the way back), A->B->A, deletes (also with a final state that differs from the cached one; every other one as DeletedFinalStateUnknown), re-adds, Modified and Deleted for objects the informer does not know. Every distinct object state is also run through the real applyFilter with every binding's filter and compared with the model's jq evaluator. Plus: all 64 pairs of `event` subsets for a legacy hook with two bindings (create, change, resync, delete). A case is non-trivial when it delivers >= 3 changes and contains at least one re-delivery or outside-only change; distinct = distinct op-line sequences. `cluster` cases (one v1 binding) start the informer on the fake client and change the objects in the cluster instead."
 
 	// ---- corpus: the counterexamples of the repaired defect (filter results that are not objects)
 	corpus := []struct {
@@ -785,32 +1020,130 @@ func runC08(r *Run) {
 		})
 	}
 
+	// ---- corpus: objects as a real cluster holds them (managedFields, annotations), several bindings on
+	// one shared informer, the SAME store object re-delivered after the snapshots were read
+	for i, ver0 := range []bool{false, true} {
+		i, ver0 := i, ver0
+		r.One(15+i, func(c *Case, _ *Rng) {
+			c.Desc = "corpus: three bindings of one hook (no jqFilter / .metadata / .spec) on one shared informer, an object with metadata.managedFields: Added, every binding's snapshot read, the same store object delivered again twice (resync), a managedFields-only change, resync, Deleted"
+			if ver0 {
+				c.Desc += " — legacy hook format"
+			}
+			c.Nontrivial = true
+			ns := fmt.Sprintf("c08-%d", c.Idx)
+			mk := func(exec []kemtypes.WatchEventType, v0 []string) c08Binding {
+				if ver0 {
+					return c08Binding{v0: &v0}
+				}
+				return c08Binding{exec: &exec}
+			}
+			specs := []c08Spec{
+				{mk(g4AllTypes, []string{"add", "update", "delete"}), nil, true},
+				{mk([]kemtypes.WatchEventType{kemtypes.WatchEventModified}, []string{"update"}), g4Path("metadata"), true},
+				{mk([]kemtypes.WatchEventType{kemtypes.WatchEventAdded, kemtypes.WatchEventDeleted}, []string{"add", "delete"}), g4Path("spec"), true},
+			}
+			e := c08SetupHook(c, ver0, specs, i == 0, nil)
+			o1 := c08Obj(ns, "o1", 1, "x", 0)
+			mf := func(manager, at string) []any {
+				return []any{map[string]any{"manager": manager, "operation": "Update", "apiVersion": "v1", "time": at,
+					"fieldsType": "FieldsV1", "fieldsV1": map[string]any{"f:spec": map[string]any{"f:replicas": map[string]any{}}}}}
+			}
+			g4SetPath(o1, []string{"metadata", "managedFields"}, mf("kubectl", "2024-01-01T00:00:00Z"))
+			g4SetPath(o1, []string{"metadata", "annotations"}, map[string]any{"kubectl.kubernetes.io/last-applied-configuration": "{}"})
+			e.jqProbe(o1)
+			e.deliver(kemtypes.WatchEventAdded, "o1", o1)
+			e.deliver(kemtypes.WatchEventModified, "o1", o1) // resync: the same pointer
+			e.deliver(kemtypes.WatchEventModified, "o1", o1)
+			c.Note("redeliver:resync")
+			o2 := g4DeepCopyJSON(o1)
+			g4SetPath(o2, []string{"metadata", "managedFields"}, mf("helm", "2024-01-02T00:00:00Z")) // inside `.` and `.metadata`, outside `.spec`
+			e.jqProbe(o2)
+			e.deliver(kemtypes.WatchEventModified, "o1", o2)
+			e.deliver(kemtypes.WatchEventModified, "o1", o2)
+			e.deliver(kemtypes.WatchEventDeleted, "o1", o2)
+		})
+	}
+
 	// ---- generated histories
-	n := r.N(3000, 60000)
+	n := r.N(3000, 50000)
 	r.Cases(100, n, 0, func(c *Case, rng *Rng) {
-		var f *jqF
-		if rng.Chance(85) {
-			f = g4GenFilter(rng, 2)
+		// the hook: 55% one binding, otherwise two or three bindings on the same kind/namespace (one
+		// shared informer); 25% written in the legacy format (configVersion v0)
+		nb := 1
+		if rng.Chance(45) {
+			nb = rng.Range(2, 3)
 		}
-		b := c08GenBinding(rng)
-		keep := rng.Chance(60)
+		v0 := rng.Chance(25)
+		var specs []c08Spec
+		for k := 0; k < nb; k++ {
+			sp := c08Spec{keep: rng.Chance(60)}
+			if rng.Chance(80) {
+				sp.f = g4GenProg(rng, 2, c08FilterPaths)
+			}
+			if v0 {
+				sp.b = c08Binding{v0: c08GenV0Events(rng)}
+			} else {
+				sp.b = c08GenBinding(rng)
+			}
+			specs = append(specs, sp)
+		}
+		f := specs[0].f
 		names := []string{"o1", "o2", "o3"}[:rng.Range(1, 3)]
 		var initial []map[string]any
 		ns := fmt.Sprintf("c08-%d", c.Idx)
 		for _, nm := range names {
 			if rng.Chance(50) {
-				initial = append(initial, g4GenObject(rng, ns, nm))
+				initial = append(initial, c08GenObject(rng, ns, nm))
 			}
 		}
-		e := c08Setup(c, b, f, keep, initial)
+		e := c08SetupHook(c, v0, specs, rng.Bool(), initial)
 		steps := rng.Range(3, 14)
+		if nb > 1 {
+			steps = rng.Range(3, 9)
+		}
 		ch := c08History(e, rng, f, names, steps)
 		c.Nontrivial = ch >= 3 && (c.notes["redeliver:resync"]+c.notes["redeliver:start-replay"]+c.notes["change:outside-filter-paths"] > 0)
-		if f == nil {
-			c.Note("filter:none")
-		} else {
-			c.Note("filter:" + f.Kind)
+		for _, sp := range specs {
+			if sp.f == nil {
+				c.Note("filter:none")
+			} else {
+				c.Note("filter:" + sp.f.Kind)
+			}
 		}
+	})
+
+	// ---- legacy hooks with two bindings: every pair of `event` subsets (64), each binding must keep
+	// its own list; one object is created, changed, re-delivered and deleted
+	r.Cases(600000, 64, 0, func(c *Case, rng *Rng) {
+		k := c.Idx - 600000
+		ns := fmt.Sprintf("c08-%d", c.Idx)
+		evs := func(mask int) *[]string {
+			l := []string{}
+			for i, n := range []string{"add", "update", "delete"} {
+				if mask&(1<<i) != 0 {
+					l = append(l, n)
+				}
+			}
+			rng.Shuffle(len(l), func(i, j int) { l[i], l[j] = l[j], l[i] })
+			return &l
+		}
+		var f *jqF
+		if rng.Bool() {
+			f = g4Path("spec", "replicas")
+		}
+		e := c08SetupHook(c, true, []c08Spec{{c08Binding{v0: evs(k % 8)}, f, true}, {c08Binding{v0: evs(k / 8)}, nil, true}}, rng.Bool(), nil)
+		o1 := c08GenObject(rng, ns, "o1")
+		g4SetPath(o1, []string{"spec", "replicas"}, int64(1))
+		e.jqProbe(o1)
+		e.deliver(kemtypes.WatchEventAdded, "o1", o1)
+		o2 := g4DeepCopyJSON(o1)
+		g4SetPath(o2, []string{"spec", "replicas"}, int64(2))
+		e.jqProbe(o2)
+		e.deliver(kemtypes.WatchEventModified, "o1", o2)
+		e.deliver(kemtypes.WatchEventModified, "o1", o2)
+		c.Note("redeliver:resync")
+		e.deliver(kemtypes.WatchEventDeleted, "o1", o2)
+		c.Nontrivial = true
 	})
 
 	// ---- cluster mode: the informer is started on the fake client, changes happen in the cluster
@@ -906,7 +1239,7 @@ func runC08(r *Run) {
 func c08ClusterCase(c *Case, rng *Rng) {
 	var f *jqF
 	if rng.Chance(85) {
-		f = g4GenFilter(rng, 2)
+		f = g4GenProg(rng, 2, c08FilterPaths)
 	}
 	b := c08GenBinding(rng)
 	keep := rng.Bool()
@@ -915,7 +1248,7 @@ func c08ClusterCase(c *Case, rng *Rng) {
 	var initial []map[string]any
 	for _, nm := range names {
 		if rng.Chance(60) {
-			initial = append(initial, g4GenObject(rng, ns, nm))
+			initial = append(initial, c08GenObject(rng, ns, nm))
 		}
 	}
 	e := c08Setup(c, b, f, keep, initial)
@@ -983,7 +1316,7 @@ func c08ClusterCase(c *Case, rng *Rng) {
 		var next map[string]any
 		switch {
 		case !live:
-			t, next = kemtypes.WatchEventAdded, g4GenObject(rng, ns, name)
+			t, next = kemtypes.WatchEventAdded, c08GenObject(rng, ns, name)
 			if _, err := dyn.Create(context.TODO(), &unstructured.Unstructured{Object: g4DeepCopyJSON(next)}, metav1.CreateOptions{}); err != nil {
 				c.Inconcl = "create failed: " + err.Error()
 				return
